@@ -17,7 +17,8 @@ open Opus Opus.ResetState Opus.Gen.StructFields
     same settings", state form: for every encoder state reachable from `opus_encoder_init` by accepted
     setting requests, resets and encode calls (any DSP behaviour, any input), the reset object and a new
     object carrying the same settings agree on every member that any later call can read before
-    writing it.  (Holds for the reset WITH the repair of DESIGN §9-F2; see `reset_needs_repair`.) -/
+    writing it.  (The reset is the one of fix 14e3a558, which clears the inter-frame members kept outside
+    the cleared area; for the reset before it see the counterexample `example` below.) -/
 theorem reset_eq_init (s : Enc) (h : Reach s) :
     ObsEq (encReset s) (encFresh s.fs s.channels s.arch s.silkEncOffset s.celtEncOffset (settingsOf s)) :=
   view_reset_eq_fresh (reach_inv h)
@@ -43,11 +44,12 @@ example : run ⟨fun _ _ => .lowBudget, fun v _ => ⟨.used 1, 0, v.voiceRatio, 
               (encInit 8000 1 2048 0 18152 38416) [.set 4010 3, .get 4011, .encode ⟨160, 2, 16, 0, 0⟩, .reset, .get 4011]
           = [(0, 0), (3, 0), (-1, 0), (0, 0), (3, 0)] := by decide
 
-/-- The repair is necessary: with the reset as the tree has it without the repair
-    (`silk_mode.LBRR_coded` survives), a reachable state exists whose reset differs observably from a
-    new encoder with the same settings — the model-level image of the witness the twin search
-    replays on the implementation (FEC on, 15-25 % loss, 12-16 kHz, 15-24 kb/s). -/
-theorem reset_needs_repair :
+/-- Documented counterexample about the OLD reset (the tree before fix 14e3a558, where
+    `silk_mode.LBRR_coded`, `voice_ratio`, … survived OPUS_RESET_STATE; `encResetUnrepaired` is kept in the
+    model only for this): a reachable state whose old-style reset differs observably from a new encoder
+    with the same settings — the model-level image of corpus/C12/reset_witnesses.json.  Not a statement
+    about the current code. -/
+example :
     ∃ s, Reach s ∧
       ¬ ObsEq (encResetUnrepaired s) (encFresh s.fs s.channels s.arch s.silkEncOffset s.celtEncOffset (settingsOf s)) := by
   refine ⟨(encodeStep ⟨fun _ _ => .full, fun _ _ => ⟨.used 1, 5, 77, 1104, .used 2, 17000⟩,
@@ -58,8 +60,8 @@ theorem reset_needs_repair :
 
 /-- Same clause for the decoder (state form): reset = new decoder with the same gain / complexity /
     phase-inversion setting on every member a later call can read before writing, for every decoder
-    state whose constant members are those of `opus_decoder_init` (with the repair
-    `DecControl.prevPitchLag = 0`, which OPUS_GET_PITCH reads). -/
+    state whose constant members are those of `opus_decoder_init` (the reset clears
+    `DecControl.prevPitchLag`, which OPUS_GET_PITCH reads: fix 14e3a558). -/
 theorem dec_reset_eq_init (s : Dec) (h : DecInv s) :
     DecObsEq (decReset s)
       (decFresh s.fs s.channels s.arch s.silkDecOffset s.celtDecOffset s.decodeGain s.complexity
